@@ -198,6 +198,16 @@ def parse_summary(out):
     return int(m.group(1)), int(m.group(2)), (int(m.group(4)) if m.group(4) is not None else None)
 
 
+def parse_report(out):
+    """parse '= (n, [i; j; ...])' printed by Eval vm_compute in (report ...); returns (n, [bad]) or None"""
+    o = out.replace("\n", " ").replace("%nat", "")
+    m = re.search(r"=\s*\(\s*(\d+)\s*,\s*\[([\d;\s]*)\]\s*\)", o)
+    if not m:
+        return None
+    bad = [int(x) for x in m.group(2).replace(";", " ").split()]
+    return int(m.group(1)), bad
+
+
 # ---------------------------------------------------------------- known findings
 def load_known():
     p = os.path.join(VERIF, "known_findings.jsonl")
